@@ -36,12 +36,14 @@ def odml_tuple_import(t_count, new_value):
     return_value = []
 
     for n_val in new_value:
+        fits = False
         if isinstance(n_val, (list, tuple)):
             if len(n_val) == t_count:
                 n_val_str = "("
                 for tuple_val in n_val:
                     n_val_str += str(tuple_val) + "; "
                 return_value += [n_val_str[:-2] + ")"]
+                fits = True
         elif isinstance(n_val, str):
             cln = n_val.strip()
             br_check = cln.count("(") == cln.count(")")
@@ -52,8 +54,15 @@ def odml_tuple_import(t_count, new_value):
                 com_check = cln.count("(") == (cln.count(",") + 1)
                 if l_check and br_check and com_check and sep_check:
                     return_value = cln[1:-1].split(",")
+                    fits = True
             elif br_check and sep_check:
                 return_value += [cln]
+                fits = True
+
+        if not fits:
+            # An entry that does not fit must not be dropped silently. Hand on the
+            # values as they were passed, the value conversion refuses them.
+            return new_value
 
     if not return_value:
         return_value = new_value
